@@ -5,6 +5,11 @@ HERE = os.path.dirname(os.path.dirname(os.path.abspath(__file__)))
 ALL = ["C%02d" % i for i in range(1, 21)]
 # id -> (category, engine, technique, level text, level note, design ref)
 CHECKS = {
+ "C20": ("model_checking", "E1-choice",
+   "stateless choice-tree exploration of encrypted containers (OOXML-in-CFB, BIFF8 FILEPASS, ods manifests) and of unencrypted workbooks on the real readers",
+   "Encrypted OOXML packages (6 sizes around the mini-stream cutoff, 4 EncryptionInfo variants, DataSpaces storage or not) in CFB layouts (v3/v4, 5 sector orders, directory variations) opened with Xlsx and Xlsb; BIFF8 workbooks with FILEPASS of 4 kinds at both legal positions with garbled record bodies; ods manifests with encryption-data on the first, a middle, the last, all or several of 3-5 entries: every one must fail with the reader's Password error. Conversely unencrypted xlsx (every C01 encoding), xlsb, xls (CFB layouts, extra streams, WRITEPROTECT) and ods workbooks whose names and strings spell the trigger words must open. Full product for ods/plain (thorough: all families), <=3 deviations otherwise.",
+   "Trusted: the container writers; ciphertext is pseudo-random.",
+   "DESIGN.md §2 C20"),
  "C18": ("model_checking", "E1-choice",
    "complete enumeration of sources over {a,b} up to length 8/10 x every valid tokenisation, copy tokens at every chunk position, multi-chunk containers through the real decompressor; choice-tree exploration of project layouts in three container formats",
    "(a) every source over {a,b} of length <= 8 (thorough 10) in every valid tokenisation (literal or any legal copy token at each position; 27 k / 50 k containers), copy tokens with boundary offsets and lengths at every decompressed position 1..4095 (all 12 offset-width regimes), sources of 0..20000 bytes of four redundancy profiles compressed greedy / literal-only / raw, and two-chunk containers whose first chunk has every token count modulo 8, all decompressed by the real code and compared with the source or an independent reference expansion; (b) projects with 0-3 modules (source length, text offset 0/5/1000, compression mode, stream name different from module name, class/read-only/private records), 0-3 references of 5 kinds, optional compat-version record, code page 1252 (thorough 932), CFB layout, embedded in xlsm, xlsb and xls: module names, raw bytes, decoded text and reference names.",
